@@ -72,13 +72,25 @@ def rand_gate_spec(rng, n_qubits, names=None, max_controls=2, var_p=0.2, edge_p=
 
 
 def rand_gate_list(rng, n_qubits, n_gates, names=None, max_controls=2, var_p=0.2, edge_p=0.3, echo_p=0.3):
-    """Gate specs with structure that the passes react to: with probability echo_p the next gate acts
-    on the same site as the previous one (same name: mergeable rotation / self-inverse pair, with a
-    fresh, opposite or complementary-to-2pi angle)."""
+    """Gate specs with structure that the passes react to: with probability echo_p the next gate
+    echoes the previous one — same site (mergeable rotation / self-inverse pair, with a fresh,
+    opposite or complementary-to-2pi/4pi angle), or the SAME NAME on the same qubit set with target
+    and a control exchanged, or with one control dropped (sites that must NOT be merged/cancelled)."""
     out = []
     for _ in range(n_gates):
         if out and rng.random() < echo_p:
             prev = dict(out[-1])
+            prev["target"] = list(prev["target"])
+            prev["control"] = None if prev["control"] is None else list(prev["control"])
+            r0 = rng.random()
+            if prev["control"] and r0 < 0.2:
+                # exchange the (first) target with a control: same name, same qubits, different site
+                i = rng.randrange(len(prev["control"]))
+                prev["target"][0], prev["control"][i] = prev["control"][i], prev["target"][0]
+            elif prev["control"] and len(prev["control"]) > 1 and r0 < 0.3:
+                prev["control"] = prev["control"][:-1]            # subset of the controls
+            elif len(prev["target"]) == 2 and r0 < 0.15:
+                prev["target"] = prev["target"][::-1]
             if prev["k"] is not None:
                 r = rng.random()
                 if r < 0.3:
@@ -93,6 +105,25 @@ def rand_gate_list(rng, n_qubits, n_gates, names=None, max_controls=2, var_p=0.2
             out.append(prev)
         else:
             out.append(rand_gate_spec(rng, n_qubits, names, max_controls, var_p, edge_p))
+    return out
+
+
+def sparse_embedding(rng, n_qubits, max_index=40):
+    """An increasing map from range(n_qubits) to a sparse index set with gaps, reaching indices >= 8
+    (where the iteration order of a Python set of ints is no longer increasing)."""
+    idx = sorted(rng.sample(range(max_index), n_qubits))
+    if idx[-1] < 8:
+        idx[-1] = rng.randint(8, max_index)
+    return {i: q for i, q in enumerate(idx)}
+
+
+def embed_specs(specs, emb):
+    out = []
+    for s in specs:
+        t = dict(s)
+        t["target"] = [emb[q] for q in s["target"]]
+        t["control"] = None if s["control"] is None else [emb[q] for q in s["control"]]
+        out.append(t)
     return out
 
 
